@@ -34,12 +34,16 @@
 (*   CursorSnapshot         the remaining reads of every open cursor are those of the file set it was opened on      *)
 (*   RemovedOnlyUnreferenced a data file leaves the disk only with refs = 0 and only when no new cursor can get it   *)
 (*   StoreFilesUsable       outside the write lock every file in the list is on disk under its name and mapped       *)
-(*   ListIsLive / NewCursorsSeeLive   outside the write lock the list is exactly `live`                              *)
+(*   ListIsLive             outside the write lock the list is exactly `live`: new cursors see only the new file set  *)
 (*   StatsFresh             the cached stats are nil or the current file set                                         *)
 (*   Quiescent              no open cursor, no Replace in progress, nothing the purger could do => no replaced       *)
 (*                          file is left on disk                                                                     *)
 (*   NoStrayTmp             outside a Replace every `.tsm.tmp` on disk is held by the purger                         *)
-(* Mut # "none" plants a fault in the model (lead configs: the contract must notice it).                             *)
+(* Mut # "none" plants a fault in the model (lead configs: the contract must notice it).  The checking configs run  *)
+(* without CursorRead steps (Reads = FALSE): CursorSnapshot compares all remaining reads of every cursor in every     *)
+(* state, so positions > 0 add nothing; the generation configs (simulation) record every step with the observation   *)
+(* the contract demands after it (dir / maybe = names that must / may exist, list, inuse, rem = remaining reads of    *)
+(* each cursor, fin = the directory after quiescence).                                                               *)
 (* Deliberate deviations: new files of a Replace with old files are named (max generation of the old files, highest  *)
 (* sequence ever used in that generation + 1) so that names stay unique for every choice of old files (the engine    *)
 (* compacts whole generations); tombstones exist only on initial files (FileStore.DeleteRange is not modelled: an    *)
